@@ -178,3 +178,7 @@ pub use span::Span;
 /// Module that provides a WithPositions type
 mod with_positions;
 pub use with_positions::{MatchExtIterator, WithPositions};
+
+/// Read-only observation hooks for external verification tooling (`--cfg scnr_verif`).
+#[cfg(scnr_verif)]
+pub mod verif;
